@@ -175,6 +175,13 @@ class Facts:
         d, self.inlined = inline_new_functions(d)
         from .inline import desugar_combinators, thread_known_variants
         d, self.desugared = desugar_combinators(d)
+        # the bool a `matches!(x, P)` leaves in a compiler temporary is tested right away: the
+        # test is threaded to the arm that set it, in every body (known Result / Option / Try
+        # variants along straight-line chains likewise)
+        self.threaded = 0
+        for b in d["bodies"]:
+            if b["kind"] != "promoted" and not b.get("in_test") and not b.get("derived"):
+                self.threaded += thread_known_variants(b, bools=True, budget=40)
         self.split_edges = split_shared_switch_targets(d)
         self.raw = d
         self.meta = d["meta"]
